@@ -486,7 +486,7 @@ def show_term(t) -> str:
     return f"`{t[1]}`"
 
 
-def run(repo: Repo, res: Result, rule: str, scan_cls: ClassInfo | None, filter_cls: ClassInfo | None, config_cls: ClassInfo | None, field: str | None) -> list[str]:
+def run(repo: Repo, res: Result, rule: str, scan_cls: ClassInfo | None, filter_cls: ClassInfo | None, config_cls: ClassInfo | None, field: str | None, none_ok: bool = False) -> list[str]:
     """Adds the plumbing obligations; returns the fq names (module.func) of the functions used as glob converter."""
     ge = repo.func(ENTRY_MOD, ENTRY_FN)
     T = types_of(repo)
@@ -511,6 +511,7 @@ def run(repo: Repo, res: Result, rule: str, scan_cls: ClassInfo | None, filter_c
     if not ex.sinks:
         res.undecide(rule, base + "::patterns handed to the scan", f"the construction of the scan `{scan_cls.name if scan_cls else '?'}({filter_cls.name if filter_cls else '?'}(...))` was not found in the inlined entry point (constructors seen: {sorted(set(ex.ctors))[:8]})", w)
         return converters
+    consumer_tolerates_none = none_ok
     conv_ok, conv_detail = True, ""
     none_ok, none_detail = True, ""
     regex_ok, regex_detail = True, ""
@@ -526,7 +527,7 @@ def run(repo: Repo, res: Result, rule: str, scan_cls: ClassInfo | None, filter_c
             if t[0] in ("other", "ctor"):
                 undecided = undecided or f"the patterns handed to the scan are {show_term(t)}: cannot see whether they may be None"
                 continue
-            elif sat(nn):
+            elif sat(nn) and not consumer_tolerates_none:
                 none_ok = False
                 none_detail = f"{show_term(t)} reaches the scan un-normalised although it may be None (e.g. an empty `{GLOB}` tuple without `{REGEX}`): the scan iterates None"
             # glob patterns given
@@ -560,7 +561,7 @@ def run(repo: Repo, res: Result, rule: str, scan_cls: ClassInfo | None, filter_c
         res.undecide(rule, base + "::patterns handed to the scan", undecided, w)
     res.add(rule, f"{base}::{GLOB} all converted", conv_ok, f"every element of `{GLOB}` is converted by {', '.join(c.rsplit('.', 1)[-1] for c in converters) or '?'} before it reaches the scan" if conv_ok else conv_detail, w, kind="flow")
     res.add(rule, f"{base}::{REGEX} handed to the scan unchanged", regex_ok, f"`{REGEX}` reach the scan as given" if regex_ok else regex_detail, w, kind="flow")
-    res.add(rule, f"{base}::patterns never None at the scan", none_ok, "the pattern tuple handed to the scan is never None" if none_ok else none_detail, w, kind="flow")
+    res.add(rule, f"{base}::patterns never None at the scan", none_ok, ("the filter replaces a missing pattern tuple by an empty one itself" if consumer_tolerates_none else "the pattern tuple handed to the scan is never None") if none_ok else none_detail, w, kind="flow")
     # every other place where the converter is mapped over a public parameter
     seen = set()
     for term, node in ex.maps:
